@@ -18,7 +18,7 @@ func rulesC20(c *Ctx, r *Report) {
 	r.assume("regexp `\\S+` finds exactly the whitespace-separated tokens; strconv.ParseFloat and fmt %v round-trip float64")
 	e := effFor(c)
 	rd := c.fn("formats/smtext", "ReadNCBI")
-	ex := c.fn("formats/smtext", "extractSingleChar")
+	ex := c.role("smtext.singleChar")
 	if rd == nil || ex == nil {
 		r.undecided("ERR=>NIL", "formats/smtext.ReadNCBI", "anchor", "", "ReadNCBI or extractSingleChar not found")
 	} else {
@@ -333,11 +333,43 @@ func rulesGoString(c *Ctx, r *Report, f *ssa.Function) {
 	okLess := false
 	if mc, ok := sortCall.Call.Args[1].(*ssa.MakeClosure); ok {
 		g := mc.Fn.(*ssa.Function)
-		sg := newSymb(g)
+		// the sorted slice variable: what sort.Slice receives
+		var sortedCell ssa.Value
+		if mi, ok := sortCall.Call.Args[0].(*ssa.MakeInterface); ok {
+			if ld, ok := mi.X.(*ssa.UnOp); ok {
+				sortedCell = ld.X
+			}
+		}
+		elemOf := func(v ssa.Value, param int) bool {
+			// load(IndexAddr(load(FV bound to sortedCell), P<param>))
+			ld, ok := v.(*ssa.UnOp)
+			if !ok {
+				return false
+			}
+			ia, ok := ld.X.(*ssa.IndexAddr)
+			if !ok || ia.Index != ssa.Value(g.Params[param]) {
+				return false
+			}
+			base, ok := ia.X.(*ssa.UnOp)
+			if !ok {
+				return false
+			}
+			fv, ok := base.X.(*ssa.FreeVar)
+			return ok && bindingOf(fv) == sortedCell && sortedCell != nil
+		}
 		instrs(g, func(in ssa.Instruction) {
-			if rt, ok := in.(*ssa.Return); ok {
-				e := sg.expr(rt.Results[0]).String()
-				if e == "(call:bytes.Compare(load(load(FV:sorted)[P0]), load(load(FV:sorted)[P1])) < 0)" {
+			rt, ok := in.(*ssa.Return)
+			if !ok || len(rt.Results) != 1 {
+				return
+			}
+			bo, ok := rt.Results[0].(*ssa.BinOp)
+			if !ok || bo.Op != token.LSS {
+				return
+			}
+			k, okk := cInt(constVal(bo.Y))
+			cl, okc := bo.X.(*ssa.Call)
+			if okk && k == 0 && okc && fnIs(cl.Call.StaticCallee(), "bytes", "Compare") && len(g.Params) == 2 {
+				if elemOf(cl.Call.Args[0], 0) && elemOf(cl.Call.Args[1], 1) {
 					okLess = true
 				}
 			}
